@@ -202,6 +202,9 @@ fn limit_sets(q: &Joints) -> Vec<Option<Limits>> {
         f[5] = 0.0;
         t[5] = 0.0;
         out.push(Some(Limits { from: f, to: t, weight: w }));
+        // [0, 2pi) convention, wrapping through 0: 270 deg .. 260 deg; the centre (445 deg) lies beyond one turn,
+        // so answers below -95 deg are more than 3*pi away from it before normalisation
+        out.push(Some(Limits { from: [270f64.to_radians(); 6], to: [260f64.to_radians(); 6], weight: w }));
     }
     out
 }
@@ -536,7 +539,7 @@ pub fn run(ctx: &Ctx) -> Report {
         }
     }
     rep.rule = "E1: robots R (dof 5/6) x theta lattice x previous lattice in [-2pi,2pi]^6 (solution, +-turns, 7-value diagonals and rotations, \
-                CONSTRAINT_CENTERED) x limit sets {none, wide, window, wrapping, from==to} x weights {0,.25,.5,1} x {inverse_continuing, \
+                CONSTRAINT_CENTERED) x limit sets {none, wide, window, wrapping, from==to, 270..260 deg in the [0,2pi) convention (centre beyond one turn)} x weights {0,.25,.5,1} x {inverse_continuing, \
                 inverse_continuing_5dof}; oracle: |answer-previous| <= pi per joint, documented cost non-decreasing, every plain-inverse answer \
                 present, previous first when it realises the pose. E2 (stateright BFS, run twice): states = nodes of a 6-D joint lattice \
                 (J4/J6 across +-2pi), 12 single-joint moves, each transition calls inverse_continuing(FK_ref(next), previously returned \
